@@ -21,7 +21,7 @@ pub static PROP: Prop = Prop {
         "violation signatures name the structural cause the monitor can see in the request (field below the RFC 7822 minimum, last field + MAC tail below 28, NTS nonce shorter than 16, NTPv5 NTS unique id below 16, other); '-valid-grammar' is added when the request came unmodified from the valid-request grammar",
     ],
     profiles: Profiles::Ship,
-    cases: |t| t.pick(30_000, 600_000),
+    cases: |t| t.pick(60_000, 600_000),
     budget_s: |t| t.pick(40, 400),
     run,
     min_nontrivial: 500,
